@@ -135,6 +135,8 @@ func (o *Organism) UnmarshalBinary(data []byte) (err error) {
 	if o.Genotype, err = ReadGenome(b, genotypeId); err != nil {
 		return err
 	}
+	// the phenotype built for the genotype held before (if any) does not express the decoded one
+	o.orgPhenotype = nil
 
 	return nil
 }
